@@ -36,6 +36,13 @@ if os.environ.get("VERIF_NO_VSYNC") != "1":
     fn_pat = re.compile(r"^func (\((\w+ )?\*?\w+\) )?(\w+)\([^\n]*\{[ \t]*\n", re.M)
     npre = 0
     nwait = 0
+    nstmt = 0
+    stmt_tool = ""
+    if os.environ.get("VERIF_NO_PREEMPT") != "1" and os.environ.get("VERIF_NO_STMT") != "1":
+        stmt_tool = os.path.join(out, "stmtpoints")
+        r = subprocess.run([os.environ.get("VERIF_GO", "go1.26.8"), "build", "-o", stmt_tool, os.path.join(verif, "tools", "stmtpoints", "main.go")], stdout=subprocess.PIPE, stderr=subprocess.STDOUT, text=True)
+        if r.returncode != 0:
+            sys.exit("building tools/stmtpoints failed: " + r.stdout)
     for top in ("pkg", "internal", "cmd"):
         for dp, dn, fn in os.walk(os.path.join(repo, top)):
             if "verifsim" in dp or "verifvsync" in dp:
@@ -89,6 +96,12 @@ if os.environ.get("VERIF_NO_VSYNC") != "1":
                 dst = os.path.join(rw, os.path.relpath(os.path.join(dp, f), repo))
                 os.makedirs(os.path.dirname(dst), exist_ok=True)
                 open(dst, "w").write(new)
+                # (7) a preemption point before every statement (go/ast pass over the result)
+                if stmt_tool and top != "cmd" and not f.startswith("verif_"):
+                    r = subprocess.run([stmt_tool, dst, os.path.basename(dp), dst], stdout=subprocess.PIPE, stderr=subprocess.PIPE, text=True)
+                    if r.returncode != 0:
+                        sys.exit("stmtpoints failed on %s: %s" % (dst, r.stderr))
+                    nstmt += int(r.stdout.strip() or 0)
                 rep[os.path.join(dp, f)] = dst
                 nrw += 1
     # (6) the third-party spinner behind the cockpit format takes part in the simulation: its lock
@@ -126,7 +139,7 @@ if os.environ.get("VERIF_NO_VSYNC") != "1":
 open(os.path.join(out, "rewritten_files"), "w").write(str(nrw))
 gen = os.path.join(out, "gen")
 os.makedirs(gen, exist_ok=True)
-open(os.path.join(gen, "vsync_flag.go"), "w").write("package verifsim\n\n// generated by bin/build.sh: whether taskctl's sync primitives were rewritten to vsync in this build\nconst vsyncActive = %s\n\nconst rewrittenFiles = %d\n\n// number of `range g.Nodes()` loops of pkg/scheduler rewritten to the seeded visiting order\nconst orderedLoops = %d\n\n// number of function entries that got a preemption point\nconst preemptPoints = %d\n\n// number of `<-cancel` waits of cmd/taskctl turned into simulator wait points\nconst waitPoints = %d\n\n// 1 when briandowns/spinner was rewritten to vsync locks\nconst spinnerRewritten = %d\n" % ("true" if nrw > 0 else "false", nrw, norder if os.environ.get("VERIF_NO_VSYNC") != "1" else 0, npre if os.environ.get("VERIF_NO_VSYNC") != "1" else 0, nwait if os.environ.get("VERIF_NO_VSYNC") != "1" else 0, nspin if os.environ.get("VERIF_NO_VSYNC") != "1" else 0))
+open(os.path.join(gen, "vsync_flag.go"), "w").write("package verifsim\n\n// generated by bin/build.sh: whether taskctl's sync primitives were rewritten to vsync in this build\nconst vsyncActive = %s\n\nconst rewrittenFiles = %d\n\n// number of `range g.Nodes()` loops of pkg/scheduler rewritten to the seeded visiting order\nconst orderedLoops = %d\n\n// number of function entries that got a preemption point\nconst preemptPoints = %d\n\n// number of `<-cancel` waits of cmd/taskctl turned into simulator wait points\nconst waitPoints = %d\n\n// 1 when briandowns/spinner was rewritten to vsync locks\nconst spinnerRewritten = %d\n\n// number of statement-level preemption points\nconst stmtPoints = %d\n" % ("true" if nrw > 0 else "false", nrw, norder if os.environ.get("VERIF_NO_VSYNC") != "1" else 0, npre if os.environ.get("VERIF_NO_VSYNC") != "1" else 0, nwait if os.environ.get("VERIF_NO_VSYNC") != "1" else 0, nspin if os.environ.get("VERIF_NO_VSYNC") != "1" else 0, nstmt if os.environ.get("VERIF_NO_VSYNC") != "1" else 0))
 rep[os.path.join(repo, "internal/verifsim", "vsync_flag.go")] = os.path.join(gen, "vsync_flag.go")
 for f in sorted(os.listdir(os.path.join(verif, "glue"))):
     if f.endswith(".go"):
